@@ -107,19 +107,48 @@ const TOKENS: &[&[u32]] = &[
     &[0x39, 0x39],
     &[0x78],
     &[0x55],
+    // complete escapes, valid and just-invalid ones
+    &[0x5C, 0x75, 0x30, 0x30, 0x34, 0x31],
+    &[0x5C, 0x75, 0x7B, 0x34, 0x31, 0x7D],
+    &[0x5C, 0x75, 0x7B, 0x32, 0x66, 0x66, 0x66, 0x66, 0x7D],
+    &[0x5C, 0x75, 0x7B, 0x33, 0x30, 0x30, 0x30, 0x30, 0x7D],
+    &[0x5C, 0x75, 0x7B, 0x30, 0x7D],
+    &[0x5C, 0x75, 0x7B, 0x30, 0x30, 0x30, 0x34, 0x31, 0x7D],
+    &[0x5C, 0x75, 0x7B, 0x30, 0x30, 0x30, 0x30, 0x34, 0x31, 0x7D],
+    &[0x5C, 0x75, 0x64, 0x38, 0x30, 0x30],
 ];
 
 pub fn run(tape: &[u8], cx: &Cx) -> Outcome {
     let mut t = Tape::new(tape);
     // text: token sequence
-    let n = t.choose(25);
+    // mostly up to 24 tokens; a tenth of the texts are long (hundreds of tokens)
+    let n = if t.bool_p(26) { 60 + t.choose(300) } else { t.choose(25) };
     let mut text: Vec<u32> = Vec::new();
     for _ in 0..n {
         text.extend_from_slice(TOKENS[t.choose(TOKENS.len())]);
     }
     // string for the print direction: either arbitrary code points or something that *spells* an escape
-    let m = t.choose(10);
     let mut s: Vec<u32> = Vec::new();
+    // a tenth of the strings are long: runs of printable characters of 0-300 characters separated by
+    // characters that need special treatment (buffered printers, block-wise readers)
+    let m = if t.bool_p(26) {
+        let runs = 1 + t.choose(5);
+        for _ in 0..runs {
+            let k = match t.weighted(&[2, 3, 2]) {
+                0 => t.choose(40),
+                1 => 100 + t.choose(60),
+                _ => 230 + t.choose(60),
+            };
+            let c = t.pick(&[0x61u32, 0x7A, 0x20, 0x7E]);
+            for _ in 0..k {
+                s.push(c);
+            }
+            s.push(t.pick(&[0x22u32, 0x22, 0x5C, 0x7F, 0x100, 0x2FFFF, 0x0A]));
+        }
+        t.choose(4)
+    } else {
+        t.choose(10)
+    };
     for _ in 0..m {
         match t.weighted(&[4, 3, 2, 2]) {
             0 => s.extend_from_slice(TOKENS[t.choose(TOKENS.len())]),
@@ -207,7 +236,22 @@ pub fn enumerate(thorough: bool, part: usize, parts: usize, sink: &mut EnumSink)
     }
     // (ii) structured long escapes
     {
-        let prefixes: [&[u32]; 5] = [&[], &[0x5C], &[0x67], &[0x5C, 0x75], &[0x5C, 0x75, 0x7B]];
+        // nothing, plain characters, and every kind of failed escape attempt (with and without hex digits
+        // already consumed) directly in front of the escape under test
+        let prefixes: [&[u32]; 12] = [
+            &[],
+            &[0x5C],
+            &[0x67],
+            &[0x5C, 0x75],
+            &[0x5C, 0x75, 0x7B],
+            &[0x5C, 0x75, 0x30],
+            &[0x5C, 0x75, 0x30, 0x32],
+            &[0x5C, 0x75, 0x30, 0x32, 0x66],
+            &[0x5C, 0x75, 0x7B, 0x30],
+            &[0x5C, 0x75, 0x7B, 0x30, 0x32, 0x66],
+            &[0x5C, 0x75, 0x7B, 0x30, 0x32, 0x66, 0x33, 0x66],
+            &[0x5C, 0x75, 0x7B, 0x33, 0x66, 0x66, 0x66, 0x66, 0x7D],
+        ];
         let terms: [&[u32]; 6] = [&[0x7D], &[], &[0x67], &[0x5C], &[0x7B], &[0x7D, 0x7D]];
         let suffixes: [&[u32]; 3] = [&[], &[0x30], &[0x41]];
         let digits: [u32; 5] = [0x30, 0x32, 0x33, 0x66, 0x46];
